@@ -123,14 +123,14 @@ Lemma partial_oend t cap n : 0 <= t -> 0 <= n -> Z.min t n <= cap ->
   0 <= Z.min t cap /\ Z.min (Z.min t cap) n = Z.min t n /\ (t <= n -> Z.min t cap <= n).
 Proof. lia. Qed.
 
-Theorem partial_exact_safe_loop_prefix :
-  forall (B hist D : list Z) (srcm dictm : mem) (t cap k : Z) (m0 : mem),
+Theorem partial_exact_prefix :
+  forall (fastloop : bool) (B hist D : list Z) (srcm dictm : mem) (t cap k : Z) (m0 : mem),
     strict_valid (lastn (Z.to_nat 65536) hist) B = Some D -> bytes B -> src_at srcm 0 B ->
     hist_placed PPrefix hist dictm m0 -> 0 <= t -> Z.min t (Z.of_nat (length D)) <= cap ->
     0 <= k -> (k = 0 \/ t <= Z.of_nat (length D)) ->
-    decodes_prefix (decompress_usingDict false true srcm (Z.of_nat (length B) + k) t cap PPrefix dictm (Z.of_nat (length hist)) m0) D t.
+    decodes_prefix (decompress_usingDict fastloop true srcm (Z.of_nat (length B) + k) t cap PPrefix dictm (Z.of_nat (length hist)) m0) D t.
 Proof.
-  intros B hist D srcm dictm t cap k m0 Hv Hb Hs Hh Ht Hcap Hk Htr.
+  intros fastloop B hist D srcm dictm t cap k m0 Hv Hb Hs Hh Ht Hcap Hk Htr.
   unfold hist_placed in Hh. unfold decompress_usingDict, decodes_prefix.
   pose proof (out_at_lastn _ _ (Z.to_nat 65536) _ Hh) as Hh'.
   pose proof (lastn_length (Z.to_nat 65536) hist) as Hl.
@@ -138,39 +138,39 @@ Proof.
   rewrite <- Hmin.
   assert (Htr' : k = 0 \/ Z.min t cap <= Z.of_nat (length D)) by lia.
   destruct (Z.of_nat (length hist) =? 0) eqn:E0.
-  - apply (dec_generic_partial_safe_loop NoDict srcm empty 0 0 0 ltac:(lia) ltac:(lia) B (lastn (Z.to_nat 65536) hist) D (Z.min t cap) k m0); try assumption. lia.
+  - apply (dec_generic_partial NoDict srcm empty 0 0 0 ltac:(lia) ltac:(lia) fastloop B (lastn (Z.to_nat 65536) hist) D (Z.min t cap) k m0); try assumption. lia.
   - destruct (Z.of_nat (length hist) >=? 65536 - 1) eqn:E1.
-    + apply (dec_generic_partial_safe_loop WithPrefix64k srcm empty 0 (-65536) (- Z.of_nat (length hist)) ltac:(lia) ltac:(lia) B (lastn (Z.to_nat 65536) hist) D (Z.min t cap) k m0); try assumption. lia.
-    + apply (dec_generic_partial_safe_loop NoDict srcm empty 0 (- Z.of_nat (length hist)) (- Z.of_nat (length hist)) ltac:(lia) ltac:(lia) B (lastn (Z.to_nat 65536) hist) D (Z.min t cap) k m0); try assumption. lia.
+    + apply (dec_generic_partial WithPrefix64k srcm empty 0 (-65536) (- Z.of_nat (length hist)) ltac:(lia) ltac:(lia) fastloop B (lastn (Z.to_nat 65536) hist) D (Z.min t cap) k m0); try assumption. lia.
+    + apply (dec_generic_partial NoDict srcm empty 0 (- Z.of_nat (length hist)) (- Z.of_nat (length hist)) ltac:(lia) ltac:(lia) fastloop B (lastn (Z.to_nat 65536) hist) D (Z.min t cap) k m0); try assumption. lia.
 Qed.
 
-Theorem partial_exact_safe_loop_nodict :
-  forall (B D : list Z) (srcm : mem) (t cap k : Z) (m0 : mem),
+Theorem partial_exact_nodict :
+  forall (fastloop : bool) (B D : list Z) (srcm : mem) (t cap k : Z) (m0 : mem),
     strict_valid [] B = Some D -> bytes B -> src_at srcm 0 B ->
     0 <= t -> Z.min t (Z.of_nat (length D)) <= cap -> 0 <= k -> (k = 0 \/ t <= Z.of_nat (length D)) ->
-    decodes_prefix (decompress_safe_partial false srcm (Z.of_nat (length B) + k) t cap m0) D t.
+    decodes_prefix (decompress_safe_partial fastloop srcm (Z.of_nat (length B) + k) t cap m0) D t.
 Proof.
-  intros B D srcm t cap k m0 Hv Hb Hs Ht Hcap Hk Htr. unfold decompress_safe_partial, decodes_prefix.
+  intros fastloop B D srcm t cap k m0 Hv Hb Hs Ht Hcap Hk Htr. unfold decompress_safe_partial, decodes_prefix.
   destruct (partial_oend t cap (Z.of_nat (length D)) Ht ltac:(lia) Hcap) as (Ho0 & Hmin & Hle).
   rewrite <- Hmin.
-  apply (dec_generic_partial_safe_loop NoDict srcm empty 0 0 0 ltac:(lia) ltac:(lia) B [] D (Z.min t cap) k m0); try assumption.
+  apply (dec_generic_partial NoDict srcm empty 0 0 0 ltac:(lia) ltac:(lia) fastloop B [] D (Z.min t cap) k m0); try assumption.
   - intros j Hj. cbn in Hj. lia.
   - cbn. lia.
   - lia.
 Qed.
 
 (* the trailing-bytes case on its own: declared srcSize = |B| + k, t <= |D| *)
-Corollary partial_trailing_bytes_safe_loop :
-  forall (B hist D : list Z) (srcm dictm : mem) (t cap k : Z) (m0 : mem),
+Corollary partial_trailing_bytes :
+  forall (fastloop : bool) (B hist D : list Z) (srcm dictm : mem) (t cap k : Z) (m0 : mem),
     strict_valid (lastn (Z.to_nat 65536) hist) B = Some D -> bytes B -> src_at srcm 0 B ->
     hist_placed PPrefix hist dictm m0 -> 0 <= t <= Z.of_nat (length D) -> t <= cap -> 0 <= k ->
-    let '(r, m, _) := decompress_usingDict false true srcm (Z.of_nat (length B) + k) t cap PPrefix dictm (Z.of_nat (length hist)) m0 in
+    let '(r, m, _) := decompress_usingDict fastloop true srcm (Z.of_nat (length B) + k) t cap PPrefix dictm (Z.of_nat (length hist)) m0 in
     r = t /\ forall i, 0 <= i < t -> get m i = nth (Z.to_nat i) D 0.
 Proof.
-  intros B hist D srcm dictm t cap k m0 Hv Hb Hs Hh Ht Hcap Hk.
-  pose proof (partial_exact_safe_loop_prefix B hist D srcm dictm t cap k m0 Hv Hb Hs Hh) as H.
+  intros fastloop B hist D srcm dictm t cap k m0 Hv Hb Hs Hh Ht Hcap Hk.
+  pose proof (partial_exact_prefix fastloop B hist D srcm dictm t cap k m0 Hv Hb Hs Hh) as H.
   unfold decodes_prefix in H.
-  destruct (decompress_usingDict false true srcm (Z.of_nat (length B) + k) t cap PPrefix dictm (Z.of_nat (length hist)) m0) as [[r m] kk].
+  destruct (decompress_usingDict fastloop true srcm (Z.of_nat (length B) + k) t cap PPrefix dictm (Z.of_nat (length hist)) m0) as [[r m] kk].
   destruct H as [H1 H2]; try lia.
   replace (Z.min t (Z.of_nat (length D))) with t in H1 by lia. subst r. split; [reflexivity | exact H2].
 Qed.
